@@ -174,11 +174,23 @@ type C17Case struct {
 	Main string `json:"main"`
 }
 
+// c17Typed is a cause with a type of its own (errors.As) around the sentinel (errors.Is)
+type c17Typed struct{ msg string }
+
+func (e *c17Typed) Error() string { return e.msg }
+func (e *c17Typed) Unwrap() error { return errSentinel }
+
+// causes whose text is awkward for whoever formats errors: several lines, tabs and control
+// characters, invalid UTF-8, more than 512 characters. All of them wrap errSentinel.
+var c17Causes = []error{nil, fmt.Errorf("backend said:\n  line 2\tcolumn 3\r\n%w\nlast line", errSentinel), &c17Typed{"typed cause \x00\x1b[31m\xff\ufffd end"},
+	fmt.Errorf("%s: %w", strings.Repeat("a long explanation ", 40), errSentinel), &c17Typed{strings.Repeat("x", 2000) + "\n" + strings.Repeat("y", 2000)}}
+
 func c17Engine(srcs map[string]string, failAt int) (*twig.Engine, *Spies) {
 	e := newEngine(srcs)
 	e.EnableSandbox(allowAll{})
 	sp := NewSpies()
 	sp.FailAt = failAt
+	sp.FailErr = c17Causes[failAt%len(c17Causes)]
 	sp.Install(e)
 	return e, sp
 }
@@ -241,7 +253,11 @@ func checkC17N(c C17Case) (int, error) {
 				return k, fmt.Errorf("%s returned no error although spy invocation %d of %d (%s) failed; output %s; templates:%s", what, kk, n, sp.Log[kk-1], q(r.Out), showSources(srcs))
 			}
 			if !errors.Is(r.Error(), errSentinel) {
-				return k, fmt.Errorf("%s: the returned error does not wrap the cause (errors.Is fails) when invocation %d (%s) failed: %s; templates:%s", what, kk, sp.Log[kk-1], firstLine(r.Err), showSources(srcs))
+				return k, fmt.Errorf("%s: the returned error does not wrap the cause (errors.Is fails) when invocation %d (%s) failed with %s: %s; templates:%s", what, kk, sp.Log[kk-1], q(trunc(fmt.Sprint(sp.FailErr))), firstLine(r.Err), showSources(srcs))
+			}
+			var typed *c17Typed
+			if _, isTyped := sp.FailErr.(*c17Typed); isTyped && !errors.As(r.Error(), &typed) {
+				return k, fmt.Errorf("%s: the cause's own type cannot be found with errors.As when invocation %d (%s) failed with a *c17Typed: %s; templates:%s", what, kk, sp.Log[kk-1], firstLine(r.Err), showSources(srcs))
 			}
 			if mode != 1 && r.Out != "" {
 				return k, fmt.Errorf("%s returned partial output %s together with the error; templates:%s", what, q(r.Out), showSources(srcs))
@@ -251,7 +267,7 @@ func checkC17N(c C17Case) (int, error) {
 	return limit, nil
 }
 
-const c17Rule = "template sets from five structural generators (control flow, inheritance chains with parent(), include chains with all options, macro libraries through all five call forms, apply/spaceless bodies) with spies (function, filter, test; also as the operand of `is defined`, as the subject of default() and inside a subscript piped through default()) injected at random expression positions: print, if/elseif conditions, for sequences, set values, include names and with-values, macro arguments and defaults, extends/import names, apply arguments; for every spy invocation k of the fault-free render (all when N <= 64, else 64 evenly spaced) the render is repeated with invocation k failing, through Render, RenderTo and debug mode; non-trivial = the failing invocation lies below at least one structural node (loop, condition, block, include, macro, parent template); distinct by (source set, context)"
+const c17Rule = "template sets from five structural generators (control flow, inheritance chains with parent(), include chains with all options, macro libraries through all five call forms, apply/spaceless bodies) with spies (function, filter, test; also as the operand of `is defined`, as the subject of default() and inside a subscript piped through default()) injected at random expression positions: print, if/elseif conditions, for sequences, set values, include names and with-values, macro arguments and defaults, extends/import names, apply arguments; for every spy invocation k of the fault-free render (all when N <= 64, else 64 evenly spaced) the render is repeated with invocation k failing, through Render, RenderTo and debug mode, the cause being the bare sentinel or an error around it whose text has several lines, control characters, invalid UTF-8 or thousands of characters (found again with errors.Is and, for the typed ones, errors.As); non-trivial = the failing invocation lies below at least one structural node (loop, condition, block, include, macro, parent template); distinct by (source set, context)"
 
 func TestC17Faults(t *testing.T) {
 	r := NewRec(t, "C17", c17Rule)
@@ -454,7 +470,9 @@ var c17BuiltinTests = []string{"defined", "empty", "null", "none", "even", "odd"
 // positions for a name N: F stands for the filter application, G(..) for the function call, T for the test
 var c17FilterSites = []string{"{{ xs|N }}", "{{ xs|N|length }}", "{{ xs|reverse|N }}", "{% set v = xs|N %}[{{ v }}]", "{% if xs|N %}y{% else %}n{% endif %}", "{% for i in xs|N %}{{ i }}{% else %}none{% endfor %}",
 	"{% for i in xs|N|reverse %}{{ i }}{% else %}none{% endfor %}", "{% for i in xs|reverse|N %}{{ i }}{% else %}none{% endfor %}", "a{% apply N %}x{% endapply %}c", "{{ max(1, n|N) }}", "{{ nope|default(xs|N) }}",
-	"{% include 'leaf' with {'v': xs|N} %}", "{% macro m(x) %}{{ x|N }}{% endmacro %}{{ m(s) }}", "{{ (xs|N) ? 'a' : 'b' }}", "{{ [xs|N]|length }}", "a{% do xs|N %}b", "a{% do 1 + (n|N) %}b"}
+	"{% include 'leaf' with {'v': xs|N} %}", "{% macro m(x) %}{{ x|N }}{% endmacro %}{{ m(s) }}", "{{ (xs|N) ? 'a' : 'b' }}", "{{ [xs|N]|length }}", "a{% do xs|N %}b", "a{% do 1 + (n|N) %}b",
+	// an apply block whose body renders nothing
+	"a{% apply N %}{% endapply %}c", "a{% apply N %} {% endapply %}c", "a{% apply N %}{% if false %}x{% endif %}{% endapply %}c", "a{% apply N %}{{ nope }}{% for i in [] %}x{% endfor %}{% endapply %}c", "a{% apply upper|N %}{% endapply %}c"}
 var c17FunctionSites = []string{"{{ N(xs) }}", "{{ N(1, 3) }}", "{{ N(xs)|length }}", "{% set v = N(xs) %}[{{ v }}]", "{% if N(xs) %}y{% else %}n{% endif %}", "{% for i in N(xs) %}{{ i }}{% else %}none{% endfor %}",
 	"{% for i in N(1, 3) %}{{ i }}{% else %}none{% endfor %}", "{% for i in N(xs)|reverse %}{{ i }}{% else %}none{% endfor %}", "{{ nope|default(N(xs)) }}", "{% include 'leaf' with {'v': N(xs)} %}",
 	"{% macro m(x) %}{{ x }}{% endmacro %}{{ m(N(xs)) }}", "{{ N(xs) ? 'a' : 'b' }}", "{{ [N(xs)]|length }}", "{% for i in xs %}{{ N(i, 2) }}{% endfor %}", "{% apply upper %}{{ N(xs) }}{% endapply %}", "a{% do N(xs) %}b"}
@@ -462,7 +480,7 @@ var c17TestSites = []string{"{{ n is N ? 'a' : 'b' }}", "{{ n is N(2) ? 'a' : 'b
 	"{% for i in xs %}{% if i is N %}y{% endif %}{% endfor %}", "{% for i in (n is N) ? xs : [] %}{{ i }}{% else %}none{% endfor %}", "a{% do n is N %}b", "a{% do n is not N(2) %}b"}
 
 func TestC17Overrides(t *testing.T) {
-	r := NewRec(t, "C17", "exhaustive: every built-in filter (31), function (13) and test (15) name re-registered by the user with a failing callback and used in 17 / 16 / 10 positions (print, chain positions, set, if, for sequence bare and in chains, apply tag, do tag, arguments, include-with, macro, conditional, list element), plus the tags that apply a filter on their own; non-trivial = the failing callback was invoked")
+	r := NewRec(t, "C17", "exhaustive: every built-in filter (31), function (13) and test (15) name re-registered by the user with a failing callback and used in 22 / 16 / 10 positions (print, chain positions, set, if, for sequence bare and in chains, apply tag, do tag, arguments, include-with, macro, conditional, list element), plus the tags that apply a filter on their own; non-trivial = the failing callback was invoked")
 	defer r.Flush()
 	r.SetExhaustive()
 	cases := []C17OverrideCase{
@@ -502,7 +520,7 @@ func TestC17Overrides(t *testing.T) {
 
 // TestC17Unknown: the same sites with a name nothing is registered under.
 func TestC17Unknown(t *testing.T) {
-	r := NewRec(t, "C17", "exhaustive: an unregistered filter / function / test name in each of the 17 / 16 / 10 sites of TestC17Overrides; oracle: Render returns an error and no output; all cases non-trivial")
+	r := NewRec(t, "C17", "exhaustive: an unregistered filter / function / test name in each of the 22 / 16 / 10 sites of TestC17Overrides; oracle: Render returns an error and no output; all cases non-trivial")
 	defer r.Flush()
 	r.SetExhaustive()
 	for kind, sites := range map[string][]string{"filter": c17FilterSites, "function": c17FunctionSites, "test": c17TestSites} {
